@@ -22,7 +22,7 @@ CONSTANTS
   MaxUp,      \* upload records ever created (abstract ids 1..MaxUp, in creation order)
   MaxMsg,     \* messages ever published (ids 1..MaxMsg)
   Topics, Users,
-  MaxGc, MaxClock, Grace,
+  MaxGc, Grace,
   Methods, Keys, Creds, Places, Sizes, Kinds, Faults, Shapes, Limits, NewaccVals, AsattVals,
   AllowSlow,  \* explore two-phase (in-flight) uploads
   DEV_NewaccNoAuth,          \* largeFileReceive: `uid.IsZero() && topic != "newacc"`: sign-up uploads need no credentials
@@ -112,7 +112,8 @@ World0 == [up |-> EmptyFn, disk |-> EmptyFn, links |-> {}, msgs |-> EmptyFn, top
 
 Ids(ww) == DOMAIN ww.up
 Linked(ww, id) == \E l \in ww.links : l.f = id
-Collectable(ww, cutoff) == {id \in Ids(ww) : ~Linked(ww, id) /\ ww.up[id].stamp < cutoff}
+\* age = ticks of the clock since the record was last written (FileDef.UpdatedAt), saturating at Grace
+Collectable(ww) == {id \in Ids(ww) : ~Linked(ww, id) /\ ww.up[id].age >= Grace}
 TargetExists(ww, kind, t) ==
   CASE kind = "msg" -> t \in DOMAIN ww.msgs
     [] kind = "topic" -> t \in ww.topics
@@ -123,9 +124,9 @@ Content(id) == "b" \o ToString(id)
 Partial(id) == "p" \o ToString(id)
 
 \* largeFileReceive. `id` is the record id the request will use if it gets that far; r.bytes the file sent.
-DoUpload(ww, id, r, now) ==
+DoUpload(ww, id, r) ==
   LET g == Gate("upload", r)
-      rec(st) == [owner |-> CredUser(CredSeen("upload", r)), st |-> st, stamp |-> now,
+      rec(st) == [owner |-> CredUser(CredSeen("upload", r)), st |-> st, age |-> 0,
                   bytes |-> r.bytes, mime |-> KindMime(r.kind)]
       same(st) == [w |-> ww, resp |-> Resp(st)]
   IN
@@ -144,13 +145,13 @@ DoUpload(ww, id, r, now) ==
                       resp |-> [Resp(200) EXCEPT !.url = id]]
 
 \* An upload whose source is slow: fs.Upload has created the file and the 'started' record and is copying.
-DoUploadBegin(ww, id, r, now) ==
-  [ww EXCEPT !.up = Put(@, id, [owner |-> CredUser(r.cred), st |-> "started", stamp |-> now,
+DoUploadBegin(ww, id, r) ==
+  [ww EXCEPT !.up = Put(@, id, [owner |-> CredUser(r.cred), st |-> "started", age |-> 0,
                                  bytes |-> r.bytes, mime |-> KindMime(r.kind)]),
              !.disk = Put(@, id, r.partial)]
 InFlight(ww, id) == id \in Ids(ww) /\ ww.up[id].st = "started" /\ id \in DOMAIN ww.disk /\ ww.disk[id] # ww.up[id].bytes
-DoUploadEnd(ww, id, now) ==
-  [ww EXCEPT !.up[id].st = "finished", !.up[id].stamp = now, !.disk[id] = ww.up[id].bytes]
+DoUploadEnd(ww, id) ==
+  [ww EXCEPT !.up[id].st = "finished", !.up[id].age = 0, !.disk[id] = ww.up[id].bytes]
 
 \* largeFileServe + fs.Download. r.resolves: GetIdFromUrl(url) yields the id of r.target (0 = no record has it).
 DoDownload(ww, r) ==
@@ -195,186 +196,223 @@ DoDelUser(ww, u) ==
   [ww EXCEPT !.users = @ \ {u}, !.links = {l \in @ : ~(l.k = "user" /\ l.t = u)}]
 \* store.Files.DeleteUnused(olderThan, limit): records R and their bytes go.
 DoGc(ww, R) == [ww EXCEPT !.up = Drop(@, R), !.disk = Drop(@, R)]
-GcChoices(ww, cutoff, limit) ==
-  LET C == Collectable(ww, cutoff)
+\* the clock passes one grace-period unit
+DoTick(ww) == [ww EXCEPT !.up = [id \in DOMAIN @ |-> [@[id] EXCEPT !.age = Min(@ + 1, Grace)]]]
+GcChoices(ww, limit) ==
+  LET C == Collectable(ww)
       n == IF limit > 0 THEN Min(limit, Cardinality(C)) ELSE Cardinality(C)
   IN {R \in SUBSET C : Cardinality(R) = n}
 
 -----------------------------------------------------------------------------
-(* State machine.                                                          *)
+(* State machine.  An operation is a record `o` (what is asked); Eff(o) is *)
+(* its outcome in the current state.  `last` only remembers the operation  *)
+(* (it labels generated histories); the design check runs with a VIEW that *)
+(* leaves it out, and states every clause of the property as a predicate   *)
+(* over *all* operations possible in the current state, so no clause       *)
+(* depends on `last`.                                                      *)
 
-VARIABLES w, clock, gcs, nup, nmsg, last
-vars == <<w, clock, gcs, nup, nmsg, last>>
+VARIABLES w, gcs, nup, nmsg, last
+vars == <<w, gcs, nup, nmsg, last>>
+View == <<w, gcs, nup, nmsg>>
 
-Init == /\ w = World0 /\ clock = 0 /\ gcs = 0 /\ nup = 0 /\ nmsg = 0
+Init == /\ w = World0 /\ gcs = 0 /\ nup = 0 /\ nmsg = 0
         /\ last = [op |-> "init"]
 
 ReqBase == [method : Methods, key : Keys, kplace : Places, cred : Creds, cplace : Places]
 
-Upload ==
-  /\ nup < MaxUp
-  /\ \E b \in ReqBase, sz \in Sizes, kd \in Kinds, na \in NewaccVals, ft \in Faults :
-       LET id == nup + 1
-           r == [method |-> b.method, key |-> b.key, kplace |-> b.kplace, cred |-> b.cred, cplace |-> b.cplace,
-                 size |-> sz, kind |-> kd, newacc |-> na, fault |-> ft, bytes |-> Content(id)]
-           res == DoUpload(w, id, r, clock)
-       IN /\ w' = res.w
-          /\ nup' = IF id \in Ids(res.w) THEN id ELSE nup
-          /\ last' = [op |-> "upload", id |-> id, a |-> r, resp |-> res.resp]
-  /\ UNCHANGED <<clock, gcs, nmsg>>
+UploadReqs(id) ==
+  {[method |-> b.method, key |-> b.key, kplace |-> b.kplace, cred |-> b.cred, cplace |-> b.cplace,
+    size |-> sz, kind |-> kd, newacc |-> na, fault |-> ft, bytes |-> Content(id)]
+     : b \in ReqBase, sz \in Sizes, kd \in Kinds, na \in NewaccVals, ft \in Faults}
+SlowReqs(id) ==
+  {[method |-> "POST", key |-> "valid", kplace |-> "header", cred |-> c, cplace |-> "header",
+    size |-> "small", kind |-> kd, newacc |-> FALSE, fault |-> "none", bytes |-> Content(id), partial |-> Partial(id)]
+     : c \in {x \in Creds : CredUser(x) # Anon}, kd \in {x \in Kinds : x \notin {"nofile", "empty"}}}
+DownloadReqs ==
+  {[method |-> b.method, key |-> b.key, kplace |-> b.kplace, cred |-> b.cred, cplace |-> b.cplace,
+    size |-> "small", newacc |-> FALSE, shape |-> sh, resolves |-> ShapeResolves(sh), target |-> tg, asatt |-> aa]
+     : b \in ReqBase, sh \in Shapes, tg \in 1..MaxUp, aa \in AsattVals}
 
-UploadBegin ==
-  /\ AllowSlow /\ nup < MaxUp
-  /\ \E c \in Creds, kd \in Kinds :
-       LET id == nup + 1
-           r == [method |-> "POST", key |-> "valid", kplace |-> "header", cred |-> c, cplace |-> "header",
-                 size |-> "small", kind |-> kd, newacc |-> FALSE, fault |-> "none",
-                 bytes |-> Content(id), partial |-> Partial(id)]
-       IN /\ Gate("upload", r) = 0 /\ KindMime(kd) # None /\ kd \notin {"nofile", "empty"}
-          /\ w' = DoUploadBegin(w, id, r, clock)
-          /\ nup' = id
-          /\ last' = [op |-> "uploadbegin", id |-> id, a |-> r]
-  /\ UNCHANGED <<clock, gcs, nmsg>>
+\* attachment lists: ids that exist, existed, or never existed; possibly a first URL that resolves to nothing
+Ref(i, ok) == [id |-> i, resolves |-> ok]
+RefLists == {<<>>} \cup {<<Ref(i, TRUE)>> : i \in 1..MaxUp}
+              \cup {<<Ref(i, TRUE), Ref(j, TRUE)>> : i \in 1..MaxUp, j \in 1..MaxUp}
+              \cup {<<Ref(i, FALSE), Ref(j, TRUE)>> : i \in 1..MaxUp, j \in 1..MaxUp}
+RefListsU == {r \in RefLists : Len(r) < 2 \/ r[1].id < r[2].id \/ (~r[1].resolves /\ r[1].id = r[2].id)}
 
-UploadEnd ==
-  /\ \E id \in Ids(w) :
-       /\ InFlight(w, id)
-       /\ w' = DoUploadEnd(w, id, clock)
-       /\ last' = [op |-> "uploadend", id |-> id]
-  /\ UNCHANGED <<clock, gcs, nup, nmsg>>
+UploadOps == IF nup < MaxUp THEN {[op |-> "upload", id |-> nup + 1, a |-> r] : r \in UploadReqs(nup + 1)} ELSE {}
+SlowOps == IF AllowSlow /\ nup < MaxUp THEN {[op |-> "uploadbegin", id |-> nup + 1, a |-> r] : r \in SlowReqs(nup + 1)} ELSE {}
+EndOps == {[op |-> "uploadend", id |-> id] : id \in {i \in Ids(w) : InFlight(w, i)}}
+DownloadOps == {[op |-> "download", a |-> r] : r \in DownloadReqs}
+PubOps == IF nmsg < MaxMsg THEN {[op |-> "pub", m |-> nmsg + 1, t |-> t, refs |-> refs] : t \in w.topics, refs \in RefListsU} ELSE {}
+AvatarOps == {[op |-> "avatar", k |-> "topic", t |-> t, refs |-> refs] : t \in Topics, refs \in RefListsU}
+        \cup {[op |-> "avatar", k |-> "user", t |-> t, refs |-> refs] : t \in Users, refs \in RefListsU}
+DelOps == {[op |-> "delmsg", m |-> m] : m \in DOMAIN w.msgs} \cup {[op |-> "softdel", m |-> m] : m \in DOMAIN w.msgs}
+        \cup {[op |-> "deltopic", t |-> t] : t \in w.topics} \cup {[op |-> "deluser", t |-> u] : u \in w.users}
+GcOps == IF gcs < MaxGc      \* MaxGc >= 99: any number of GC runs (not counted)
+         THEN UNION {{[op |-> "gc", limit |-> lim, removed |-> R] : R \in GcChoices(w, lim)} : lim \in Limits}
+         ELSE {}
+TickOps == IF DoTick(w) # w THEN {[op |-> "tick"]} ELSE {}
 
-Download ==
-  /\ \E b \in ReqBase, sh \in Shapes, tg \in 1..MaxUp, aa \in AsattVals :
-       LET r == [method |-> b.method, key |-> b.key, kplace |-> b.kplace, cred |-> b.cred, cplace |-> b.cplace,
-                 size |-> "small", newacc |-> FALSE, shape |-> sh, resolves |-> ShapeResolves(sh), target |-> tg, asatt |-> aa]
-       IN last' = [op |-> "download", a |-> r, resp |-> DoDownload(w, r)]
-  /\ UNCHANGED <<w, clock, gcs, nup, nmsg>>
+\* operations that may change the world / all operations
+WorldOps == UploadOps \cup SlowOps \cup EndOps \cup PubOps \cup AvatarOps \cup DelOps \cup GcOps
+AllOps == WorldOps \cup DownloadOps \cup TickOps
 
-\* attachment lists: ids that exist, existed, or never existed; possibly one URL that resolves to nothing
-RefLists == {<<>>} \cup {<<[id |-> i, resolves |-> TRUE]>> : i \in 1..MaxUp}
-              \cup {<<[id |-> i, resolves |-> TRUE], [id |-> j, resolves |-> TRUE]>> : i, j \in 1..MaxUp}
-              \cup {<<[id |-> i, resolves |-> FALSE], [id |-> j, resolves |-> TRUE]>> : i, j \in 1..MaxUp}
+\* outcome: the next world (and ok for link calls)
+Eff(o) ==
+  CASE o.op = "upload"      -> DoUpload(w, o.id, o.a)
+    [] o.op = "uploadbegin" -> [w |-> DoUploadBegin(w, o.id, o.a)]
+    [] o.op = "uploadend"   -> [w |-> DoUploadEnd(w, o.id)]
+    [] o.op = "pub"         -> DoPub(w, o.m, o.t, o.refs)
+    [] o.op = "avatar"      -> DoAvatar(w, o.k, o.t, o.refs)
+    [] o.op = "delmsg"      -> [w |-> DoDelMsgHard(w, o.m)]
+    [] o.op = "deltopic"    -> [w |-> DoDelTopic(w, o.t)]
+    [] o.op = "deluser"     -> [w |-> DoDelUser(w, o.t)]
+    [] o.op = "gc"          -> [w |-> DoGc(w, o.removed)]
+    [] o.op = "tick"        -> [w |-> DoTick(w)]
+    [] OTHER                -> [w |-> w]      \* download, softdel
 
-Pub ==
-  /\ nmsg < MaxMsg
-  /\ \E t \in w.topics, refs \in RefLists :
-       LET m == nmsg + 1
-           res == DoPub(w, m, t, refs)
-       IN /\ w' = res.w /\ nmsg' = m
-          /\ last' = [op |-> "pub", m |-> m, t |-> t, refs |-> refs, ok |-> res.ok]
-  /\ UNCHANGED <<clock, gcs, nup>>
+Step(o) ==
+  LET w2 == Eff(o).w IN
+    /\ w' = w2
+    /\ nup' = IF o.op \in {"upload", "uploadbegin"} /\ o.id \in Ids(w2) THEN o.id ELSE nup
+    /\ nmsg' = IF o.op = "pub" THEN o.m ELSE nmsg
+    /\ gcs' = IF o.op = "gc" /\ MaxGc < 99 THEN gcs + 1 ELSE gcs
+    /\ last' = o
 
-SetAvatar ==
-  /\ \E kind \in {"topic", "user"}, refs \in RefLists :
-       \E t \in (IF kind = "topic" THEN Topics ELSE Users) :
-         LET res == DoAvatar(w, kind, t, refs) IN
-           /\ w' = res.w
-           /\ last' = [op |-> "avatar", k |-> kind, t |-> t, refs |-> refs, ok |-> res.ok]
-  /\ UNCHANGED <<clock, gcs, nup, nmsg>>
+\* Every operation (used to generate histories for the real server).
+NextFull == \E o \in AllOps : Step(o)
+SpecFull == Init /\ [][NextFull]_vars
 
-DelMsgHard ==
-  /\ \E m \in DOMAIN w.msgs : w' = DoDelMsgHard(w, m) /\ last' = [op |-> "delmsg", m |-> m]
-  /\ UNCHANGED <<clock, gcs, nup, nmsg>>
-
-DelMsgSoft ==
-  /\ \E m \in DOMAIN w.msgs : last' = [op |-> "softdel", m |-> m]
-  /\ UNCHANGED <<w, clock, gcs, nup, nmsg>>
-
-DelTopic ==
-  /\ \E t \in w.topics : w' = DoDelTopic(w, t) /\ last' = [op |-> "deltopic", t |-> t]
-  /\ UNCHANGED <<clock, gcs, nup, nmsg>>
-
-DelUser ==
-  /\ \E u \in w.users : w' = DoDelUser(w, u) /\ last' = [op |-> "deluser", t |-> u]
-  /\ UNCHANGED <<clock, gcs, nup, nmsg>>
-
-Tick == /\ clock < MaxClock /\ clock' = clock + 1 /\ last' = [op |-> "tick"]
-        /\ UNCHANGED <<w, gcs, nup, nmsg>>
-
-Gc ==
-  /\ gcs < MaxGc
-  /\ \E lim \in Limits : \E R \in GcChoices(w, clock - Grace, lim) :
-       /\ w' = DoGc(w, R)
-       /\ last' = [op |-> "gc", cutoff |-> clock - Grace, limit |-> lim, removed |-> R]
-  /\ gcs' = gcs + 1
-  /\ UNCHANGED <<clock, nup, nmsg>>
-
-Next == Upload \/ UploadBegin \/ UploadEnd \/ Download \/ Pub \/ SetAvatar
-        \/ DelMsgHard \/ DelMsgSoft \/ DelTopic \/ DelUser \/ Tick \/ Gc
+\* The design check only needs every reachable *world*: operations that cannot change the world (downloads, soft
+\* deletion) are left out of the transition relation, and of the many upload requests one representative per
+\* outcome is enough - StepOpsSuffice has TLC check exactly that in every state.  All clauses of the property
+\* below quantify over the full operation sets.
+StepUploadOps == {o \in UploadOps : /\ o.a.method = "POST" /\ o.a.key = "valid" /\ o.a.kplace = "header"
+                                    /\ o.a.cplace = "header" /\ o.a.size = "small"}
+StepOps == StepUploadOps \cup SlowOps \cup EndOps \cup PubOps \cup AvatarOps \cup (DelOps \ {o \in DelOps : o.op = "softdel"})
+             \cup GcOps \cup TickOps
+Next == \E o \in StepOps : Step(o)
 Spec == Init /\ [][Next]_vars
 
 -----------------------------------------------------------------------------
-(* The property on the model.                                              *)
+(* The property on the model: in every reachable state, for every          *)
+(* operation that can be asked there.  Each clause is an operator over one *)
+(* operation and its outcome; the named invariants quantify it over all    *)
+(* operations; ReqClauses / LifeClauses are the same conjunctions computed *)
+(* with one evaluation of each outcome per state (what the cfgs check; a   *)
+(* failing clause prints its name).                                        *)
 
 Statuses == {"started", "finished", "failed"}
 TypeOK ==
   /\ Ids(w) \subseteq 1..MaxUp /\ DOMAIN w.disk \subseteq 1..MaxUp
-  /\ \A id \in Ids(w) : w.up[id].st \in Statuses /\ w.up[id].owner \in Users \cup {Anon} /\ w.up[id].stamp \in 0..MaxClock
+  /\ \A id \in Ids(w) : w.up[id].st \in Statuses /\ w.up[id].owner \in Users \cup {Anon} /\ w.up[id].age \in 0..Grace
   /\ \A l \in w.links : l.f \in 1..MaxUp /\ l.k \in {"msg", "topic", "user"}
   /\ w.topics \subseteq Topics /\ w.users \subseteq Users /\ DOMAIN w.msgs \subseteq 1..MaxMsg
 
-IsReq == last.op \in {"upload", "download"}
-Ep(l) == IF l.op = "upload" THEN "upload" ELSE "serve"
-MustRefuse(l) ==
-  \/ ~Authorised(l.a)
-  \/ l.a.method \notin Implemented(Ep(l))
-  \/ l.op = "upload" /\ l.a.method \in {"POST", "PUT"} /\ l.a.size = "over"
+MustRefuse(ep, r) ==
+  \/ ~Authorised(r)
+  \/ r.method \notin Implemented(ep)
+  \/ ep = "upload" /\ r.method \in {"POST", "PUT"} /\ r.size = "over"
 
+\* ---- requests: r = the request, res = [w, resp] of an upload, resp of a download
 \* no effect without a valid key and valid credentials; oversize and unimplemented methods refused; refusals have no effect
-GateBeforeEffect ==
-  [][ (last'.op \in {"upload", "download"} /\ MustRefuse(last'))
-        => /\ w' = w
-           /\ last'.resp.served = None
-           /\ (last'.a.method # "OPTIONS" => last'.resp.status >= 400) ]_vars
-
+C_GateUpload(r, res) ==
+  MustRefuse("upload", r) =>
+     /\ res.w = w /\ res.resp.served = None /\ res.resp.url = 0
+     /\ (r.method # "OPTIONS" => res.resp.status >= 400)
+C_GateDownload(r, resp) ==
+  MustRefuse("serve", r) => resp.served = None /\ (r.method # "OPTIONS" => resp.status >= 400)
+\* an upload answered with a refusal left nothing behind (internal failures stay collectable: C_Unlinked...)
+C_RefusedNoEffect(r, res) == res.resp.status >= 400 /\ r.fault = "none" => res.w = w
 \* a download that serves anything serves the bytes and the type of the upload its URL names, saved-not-shown if active
-DownloadExact ==
-  last.op = "download" /\ last.resp.served # None =>
-    /\ last.a.resolves /\ last.a.target \in Ids(w)
-    /\ last.resp.served = w.up[last.a.target].bytes
-    /\ last.resp.mime = w.up[last.a.target].mime
-    /\ (MimeActive(last.resp.mime) => last.resp.disp)
-\* ... and an authorised GET of a completed upload's URL is served
-DownloadServes ==
-  ( /\ last.op = "download" /\ Authorised(last.a) /\ last.a.method = "GET" /\ last.a.shape = "canon"
-    /\ last.a.target \in Ids(w) /\ w.up[last.a.target].st = "finished" /\ last.a.target \in DOMAIN w.disk )
-  => last.resp.status = 200 /\ last.resp.served = w.up[last.a.target].bytes
+C_DownloadExact(r, resp) ==
+  resp.served # None =>
+      /\ r.resolves /\ r.target \in Ids(w)
+      /\ resp.served = w.up[r.target].bytes
+      /\ resp.mime = w.up[r.target].mime
+      /\ (MimeActive(resp.mime) => resp.disp)
+\* ... and an authorised GET of a completed upload's own URL is served
+C_DownloadServes(r, resp) ==
+  ( /\ Gate("serve", r) = 0 /\ r.method = "GET" /\ r.shape = "canon"
+    /\ r.target \in Ids(w) /\ w.up[r.target].st = "finished" )
+  => resp.status = 200 /\ resp.served = w.up[r.target].bytes
+C_UrlNamesOnlyCompletedUpload(r, resp) ==
+  resp.served # None => \E id \in Ids(w) : w.up[id].st = "finished" /\ id = r.target /\ resp.served = w.up[id].bytes
 
-UrlNamesOnlyCompletedUpload ==
-  last.op = "download" /\ last.resp.served # None =>
-    \E id \in Ids(w) : w.up[id].st = "finished" /\ id = last.a.target /\ last.resp.served = w.up[id].bytes
-
-\* while an upload is linked, the record and the bytes stay as they are
-LinkedNeverCollected ==
-  [][ \A id \in Ids(w) : Linked(w, id) =>
-        /\ id \in Ids(w') /\ w'.up[id] = w.up[id]
-        /\ (id \in DOMAIN w.disk => id \in DOMAIN w'.disk /\ w'.disk[id] = w.disk[id]) ]_vars
-
+\* ---- world operations: o = the operation, e = Eff(o)
+\* while an upload is linked, no operation removes or alters the record or the bytes
+C_LinkedNeverCollected(o, e) ==
+  \A id \in Ids(w) : Linked(w, id) =>
+      /\ id \in Ids(e.w) /\ (o.op \notin {"uploadend", "tick"} => e.w.up[id] = w.up[id])
+      /\ (id \in DOMAIN w.disk => id \in DOMAIN e.w.disk /\ (o.op # "uploadend" => e.w.disk[id] = w.disk[id]))
 \* attachments listed with an accepted message / avatar update that name existing uploads are linked to it
-ListedAreLinked ==
-  /\ last.op = "pub" /\ last.ok => \A i \in DOMAIN Fids(last.refs) : [f |-> Fids(last.refs)[i], k |-> "msg", t |-> last.m] \in w.links
-  /\ last.op = "avatar" /\ last.ok /\ Fids(last.refs) # <<>> => [f |-> Fids(last.refs)[1], k |-> last.k, t |-> last.t] \in w.links
+C_ListedAreLinked(o, e) ==
+  LET f == Fids(o.refs) IN
+  o.op \in {"pub", "avatar"} /\ e.ok =>
+     IF o.op = "pub" THEN \A i \in DOMAIN f : [f |-> f[i], k |-> "msg", t |-> o.m] \in e.w.links
+     ELSE f # <<>> => [f |-> f[1], k |-> o.k, t |-> o.t] \in e.w.links
 \* a link lasts as long as its message/topic/user (an avatar link: until the next avatar of the same topic/user)
-LinkLastsAsLongAsTarget ==
-  [][ \A l \in w.links : \/ l \in w'.links
-                         \/ ~TargetExists(w', l.k, l.t)
-                         \/ (last'.op = "avatar" /\ last'.ok /\ last'.k = l.k /\ last'.t = l.t) ]_vars
-
+C_LinkLastsAsLongAsTarget(o, e) ==
+  \A l \in w.links : \/ l \in e.w.links
+                     \/ ~TargetExists(e.w, l.k, l.t)
+                     \/ (o.op = "avatar" /\ e.ok /\ o.k = l.k /\ o.t = l.t)
 \* a GC run removes min(limit, n) of the n unlinked uploads older than the grace period, with their bytes
-UnlinkedCollectedAfterGrace ==
-  [][ last'.op = "gc" =>
-        LET C == Collectable(w, last'.cutoff)
-            R == Ids(w) \ Ids(w')
-        IN /\ R \subseteq C
-           /\ Cardinality(R) = (IF last'.limit > 0 THEN Min(last'.limit, Cardinality(C)) ELSE Cardinality(C))
-           /\ \A id \in R : id \notin DOMAIN w'.disk ]_vars
-
+C_UnlinkedCollectedAfterGrace(o, e) ==
+  o.op = "gc" =>
+    LET C == Collectable(w)
+        R == Ids(w) \ Ids(e.w)
+    IN /\ R \subseteq C
+       /\ Cardinality(R) = (IF o.limit > 0 THEN Min(o.limit, Cardinality(C)) ELSE Cardinality(C))
+       /\ \A id \in R : id \notin DOMAIN e.w.disk
 \* nothing else is ever removed or altered: records/bytes disappear only in a GC run and only if collectable
-NothingElseRemoved ==
-  [][ /\ \A id \in (Ids(w) \ Ids(w')) \cup ((DOMAIN w.disk) \ (DOMAIN w'.disk)) :
-            last'.op = "gc" /\ id \in Collectable(w, last'.cutoff)
-      /\ \A id \in Ids(w) \cap Ids(w') : last'.op # "uploadend" => w'.up[id] = w.up[id] ]_vars
+C_NothingElseRemoved(o, e) ==
+  /\ \A id \in (Ids(w) \ Ids(e.w)) \cup ((DOMAIN w.disk) \ (DOMAIN e.w.disk)) : o.op = "gc" /\ id \in Collectable(w)
+  /\ \A id \in Ids(w) \cap Ids(e.w) : o.op \notin {"uploadend", "tick"} => e.w.up[id] = w.up[id]
+  /\ \A id \in (DOMAIN w.disk) \cap (DOMAIN e.w.disk) : o.op # "uploadend" => e.w.disk[id] = w.disk[id]
 
+\* ---- quantified forms
+UpOuts == {[r |-> r, res |-> DoUpload(w, nup + 1, r)] : r \in UploadReqs(nup + 1)}
+DownOuts == {[r |-> r, resp |-> DoDownload(w, r)] : r \in DownloadReqs}
+\* StepOpsSuffice: every upload request has the outcome of one of StepUploadOps or none, so LifeOps covers all of WorldOps
+LifeOps == StepUploadOps \cup SlowOps \cup EndOps \cup PubOps \cup AvatarOps \cup DelOps \cup GcOps \cup TickOps
+LifeOuts == {[o |-> o, e |-> Eff(o)] : o \in LifeOps}
+
+GateBeforeEffect == (\A x \in UpOuts : C_GateUpload(x.r, x.res)) /\ (\A x \in DownOuts : C_GateDownload(x.r, x.resp))
+RefusedNoEffect == \A x \in UpOuts : C_RefusedNoEffect(x.r, x.res)
+DownloadExact == \A x \in DownOuts : C_DownloadExact(x.r, x.resp)
+DownloadServes == \A x \in DownOuts : C_DownloadServes(x.r, x.resp)
+UrlNamesOnlyCompletedUpload == \A x \in DownOuts : C_UrlNamesOnlyCompletedUpload(x.r, x.resp)
+LinkedNeverCollected == \A x \in LifeOuts : C_LinkedNeverCollected(x.o, x.e)
+ListedAreLinked == \A x \in LifeOuts : C_ListedAreLinked(x.o, x.e)
+LinkLastsAsLongAsTarget == \A x \in LifeOuts : C_LinkLastsAsLongAsTarget(x.o, x.e)
+UnlinkedCollectedAfterGrace == \A x \in LifeOuts : C_UnlinkedCollectedAfterGrace(x.o, x.e)
+NothingElseRemoved == \A x \in LifeOuts : C_NothingElseRemoved(x.o, x.e)
+
+Named(name, x, ok) == ok \/ Print(<<"clause violated", name, x>>, FALSE)
+ReqClauses ==
+  /\ \A x \in UpOuts :
+       /\ Named("GateBeforeEffect", x, C_GateUpload(x.r, x.res))
+       /\ Named("RefusedNoEffect", x, C_RefusedNoEffect(x.r, x.res))
+  /\ \A x \in DownOuts :
+       /\ Named("GateBeforeEffect", x, C_GateDownload(x.r, x.resp))
+       /\ Named("DownloadExact", x, C_DownloadExact(x.r, x.resp))
+       /\ Named("DownloadServes", x, C_DownloadServes(x.r, x.resp))
+       /\ Named("UrlNamesOnlyCompletedUpload", x, C_UrlNamesOnlyCompletedUpload(x.r, x.resp))
+  /\ Named("StepOpsSuffice", nup, nup < MaxUp => {x.res.w : x \in UpOuts} \subseteq {Eff(o).w : o \in StepUploadOps} \cup {w})
+LifeClauses ==
+  \A x \in LifeOuts :
+     /\ Named("LinkedNeverCollected", x, C_LinkedNeverCollected(x.o, x.e))
+     /\ Named("ListedAreLinked", x, C_ListedAreLinked(x.o, x.e))
+     /\ Named("LinkLastsAsLongAsTarget", x, C_LinkLastsAsLongAsTarget(x.o, x.e))
+     /\ Named("UnlinkedCollectedAfterGrace", x, C_UnlinkedCollectedAfterGrace(x.o, x.e))
+     /\ Named("NothingElseRemoved", x, C_NothingElseRemoved(x.o, x.e))
+
+\* everything unlinked is collectable once the grace period has passed: never linked, failed, lost its last link
+RECURSIVE TickN(_, _)
+TickN(ww, n) == IF n = 0 THEN ww ELSE TickN(DoTick(ww), n - 1)
+UnlinkedBecomeCollectable ==
+  \A id \in Ids(w) : ~Linked(w, id) => id \in Collectable(TickN(w, Grace))
 \* bytes on disk always belong to a record (no leak), a finished record always has its bytes
 DiskMatchesRecords ==
   /\ DOMAIN w.disk \subseteq Ids(w)
@@ -384,4 +422,5 @@ LinksWellFormed ==
   \A l \in w.links : l.f \in Ids(w) /\ TargetExists(w, l.k, l.t)
 \* an upload record is only ever owned by a user who proved who they are
 OwnerAuthenticated == \A id \in Ids(w) : w.up[id].owner # Anon
+StateClauses == TypeOK /\ UnlinkedBecomeCollectable /\ DiskMatchesRecords /\ LinksWellFormed /\ OwnerAuthenticated
 =============================================================================
